@@ -21,6 +21,8 @@
 #include "CppUTest/TestMemoryAllocator.h"
 #include "CppUTest/PlatformSpecificFunctions.h"
 #include "CppUTest/TestTestingFixture.h"
+#include "CppUTest/TestRegistry.h"
+#include "CppUTest/TestOutput.h"
 #include "CppUTest/MemoryLeakDetectorMallocMacros.h"
 #undef new
 #undef malloc
@@ -310,27 +312,33 @@ struct NextBody : ExecFunction { bool ran = false; void exec() override { ran = 
 const char* ENTRY[] = {"delete", "delete[]", "free", "realloc"};
 const char* KIND[] = {"guard-overrun", "foreign-pointer", "family-mismatch"};
 
+// an output that allocates through the overloaded operators while it records a failure (the JUnit output keeps a copy of the
+// failure made with new): if the report is recorded while the detector's lock is still held, that allocation locks it again
+struct AllocatingOutput : StringBufferTestOutput {
+    bool allocate = false;
+    void printFailure(const TestFailure& f) override { if (allocate) { char* t = (char*)operator new[](6); t[0] = 0; operator delete[](t); }   /* explicit calls: a new-expression whose result is unused may be elided */ StringBufferTestOutput::printFailure(f); }
+};
 void misuse_case(long idx) {
-    int entry = (int)(idx % 4), kind = (int)(idx / 4);
-    std::string desc = vf::fmt("%s of a block with %s in thread-safe mode", ENTRY[entry], KIND[kind]);
+    int entry = (int)(idx % 4), kind = (int)((idx / 4) % 3); bool sink_allocates = idx >= 12;
+    std::string desc = vf::fmt("%s of a block with %s in thread-safe mode%s", ENTRY[entry], KIND[kind], sink_allocates ? ", failure output allocates while recording" : "");
     vf::ctx(ENTRY[entry]);
     MemoryLeakDetector* det = MemoryLeakWarningPlugin::getGlobalDetector();      // real global reporter: fails the current test
     det->enable();
     g_tolerate_self_deadlock = true; g_self_deadlocks = 0;
     size_t failures, runs; bool after, next_ran; int owner_after;
     {
-        TestTestingFixture fx;
+        AllocatingOutput out; out.allocate = sink_allocates; TestResult result(out);
+        TestRegistry reg;
         MisuseBody body; body.entry = entry; body.kind = kind;
         NextBody next;
-        ExecFunctionTestShell second; second.testFunction_ = &next;
-        fx.setTestFunction(&body);
-        fx.addTest(&second);
+        ExecFunctionTestShell first, second; first.testFunction_ = &body; second.testFunction_ = &next;
+        reg.addTest(&second); reg.addTest(&first);
         MemoryLeakWarningPlugin::turnOnThreadSafeNewDeleteOverloads();
-        fx.runAllTests();
+        reg.runAllTests(result);
         owner_after = g_detector_mutex ? g_detector_mutex->owner : -1;
         if (g_detector_mutex) g_detector_mutex->owner = -1;          // let the harness continue
         MemoryLeakWarningPlugin::turnOffNewDeleteOverloads();
-        failures = fx.getFailureCount(); runs = fx.getRunCount(); after = body.after; next_ran = next.ran;
+        failures = result.getFailureCount(); runs = result.getRunCount(); after = body.after; next_ran = next.ran;
         det->clearAllAccounting(mem_leak_period_all);
     }
     g_tolerate_self_deadlock = false;
@@ -376,8 +384,8 @@ int main(int argc, char** argv) {
         vf::require_outcomes(c.name, 20);
     }
     {
-        vf::info("misuse.bound", "4 releasing entry points (delete, delete[], free, realloc) x 3 misuse kinds, single thread, thread-safe overloads on, real reporter, real test run");
-        vf::section_index("misuse", 12, [&](long idx) { g_detector_mutex = global_mutex; misuse_case(idx); });
+        vf::info("misuse.bound", "4 releasing entry points (delete, delete[], free, realloc) x 3 misuse kinds x failure output {plain, allocating through the overloaded operators while recording}, single thread, thread-safe overloads on, real reporter, real test run");
+        vf::section_index("misuse", 24, [&](long idx) { g_detector_mutex = global_mutex; misuse_case(idx); });
         vf::require_outcomes("misuse", 6);
     }
     return vf::finish();
